@@ -238,8 +238,9 @@ pub fn gen_c14<W: Write>(out: &mut W, thorough: bool, seed: u64) {
                 for m in 0..=k {
                     writeln!(out, "bspldnev {} {} {} {} - {} {}", hf(*x), i, k, m, t.len(), ts).unwrap();
                 }
-                // the dual-abscissa entry points, on a third of the functions
-                if (i + (x.to_bits() >> 40) as usize) % 3 == 0 {
+                // the dual-abscissa entry points, on a third of the functions (a ninth in the thorough tier, whose
+                // stream is twenty times longer)
+                if (i + (x.to_bits() >> 40) as usize) % (if thorough { 9 } else { 3 }) == 0 {
                     let (dx, ddx) = (r.dyadic(), r.dyadic());
                     for ord in [1, 2] {
                         writeln!(out, "bspldual {} - {} {} {} {} {} {} {}", ord, hf(*x), hf(dx), hf(ddx), i, k, t.len(), ts).unwrap();
